@@ -274,6 +274,32 @@ def main(argv=None):
                     nviol += 1
             except Exception as e:
                 battery_note = 'battery failed to run: %r' % (e,)
+    if tier == 'thorough' and code == 0 and battery_note is None and not a.no_replay and not a.fuc:
+        # thorough tier: besides the proofs (larger solver budgets, both back ends), the property's replay battery - a bounded
+        # enumeration of programs / histories on the REAL code with the oracle taken from the statement - is always run.  It is a
+        # bounded exploration (labelled so in the evidence, never counted as proved); a reproduced violation is a violation.
+        battery = os.path.join(HERE, 'replay', 'battery_%s.py' % a.prop)
+        if os.path.exists(battery):
+            os.makedirs(replay_dir, exist_ok=True)
+            path = os.path.join(replay_dir, '%s__thorough__battery.py' % a.prop)
+            with open(path, 'w') as f:
+                f.write('# thorough tier: bounded exploration on the real code (replay battery of %s)\n' % a.prop + open(battery).read())
+            try:
+                p = subprocess.run([REPLAY_PY, path], capture_output=True, text=True, timeout=1800, cwd=contract.REPO,
+                                   env=dict(os.environ, PYTHONPATH=contract.REPO))
+                first = (p.stdout.strip().splitlines() or [''])[0][:200]
+                battery_note = 'thorough: battery_%s.py (bounded): exit %d: %s' % (a.prop, p.returncode, first)
+                bounded.append({'fuc': '%s/battery(bounded)' % a.prop, 'what': 'replay/battery_%s.py: %s' % (a.prop, first)})
+                if p.returncode == 1 and 'REPRODUCED' in p.stdout:
+                    print('the bounded replay battery reproduced a violation on the real code:\n  '
+                          + p.stdout.strip().replace('\n', '\n  ')[-700:])
+                    print('VIOLATION property=%s replay=%s' % (a.prop, path))
+                    code = 1
+                    nviol += 1
+                elif p.returncode != 0:
+                    errors.append('%s: battery exited %d: %s' % (a.prop, p.returncode, (p.stderr or p.stdout).strip()[-300:]))
+            except Exception as e:
+                errors.append('%s: battery failed to run: %r' % (a.prop, e))
     if errors:
         for e in errors[:20]:
             print('CHECKER-ERROR:', e)
